@@ -18,6 +18,23 @@ IDENT_QUOTES = {
 DEFAULT_IDENT_QUOTES = ['"']
 
 
+def _digit(c: str) -> bool:
+    return "0" <= c <= "9"
+
+
+def _letter(c: str) -> bool:
+    return "a" <= c <= "z" or "A" <= c <= "Z" or c == "_" or ord(c) >= 128
+
+
+def cps(s: str) -> list[int]:
+    return [ord(c) for c in s]
+
+
+def tla_tokens(toks: list[dict]) -> list[dict]:
+    """token list in the shape PT_Lex!Lex produces (payloads as code points, quote as code point or 0)"""
+    return [{"t": t["t"], "v": cps(t["v"]), "q": ord(t["q"]) if t["q"] else 0} for t in toks]
+
+
 def lex(text: str, dialect: str = "sqlite") -> list[dict]:
     toks: list[dict] = []
     i, n, depth = 0, len(text), 0
@@ -32,7 +49,7 @@ def lex(text: str, dialect: str = "sqlite") -> list[dict]:
         if c in " \t\r\n":
             i += 1
             continue
-        if text.startswith("--", i):
+        if text.startswith("--", i) and (dialect != "mysql" or i + 2 >= n or text[i + 2] in " \t\r\n"):
             j = text.find("\n", i)
             j = n if j < 0 else j
             add("comment", text[i:j])
@@ -95,26 +112,26 @@ def lex(text: str, dialect: str = "sqlite") -> list[dict]:
             add("str", "".join(buf), c)
             i = j + 1
             continue
-        if c.isdigit() or (c == "." and i + 1 < n and text[i + 1].isdigit()):
+        if _digit(c) or (c == "." and i + 1 < n and _digit(text[i + 1])):
             j = i
-            while j < n and text[j].isdigit():
+            while j < n and _digit(text[j]):
                 j += 1
             if j < n and text[j] == ".":
                 j += 1
-                while j < n and text[j].isdigit():
+                while j < n and _digit(text[j]):
                     j += 1
             if j < n and text[j] in "eE":
                 k = j + 1
                 if k < n and text[k] in "+-":
                     k += 1
-                if k < n and text[k].isdigit():
-                    while k < n and text[k].isdigit():
+                if k < n and _digit(text[k]):
+                    while k < n and _digit(text[k]):
                         k += 1
                     j = k
-            if j < n and (text[j].isalpha() or text[j] == "_"):
+            if j < n and _letter(text[j]):
                 # 1abc is not a number
                 k = j
-                while k < n and (text[k].isalnum() or text[k] == "_"):
+                while k < n and (_letter(text[k]) or _digit(text[k]) or text[k] == "$"):
                     k += 1
                 add("err", text[i:k])
                 i = k
@@ -122,20 +139,20 @@ def lex(text: str, dialect: str = "sqlite") -> list[dict]:
             add("num", text[i:j])
             i = j
             continue
-        if c.isalpha() or c == "_":
+        if _letter(c):
             j = i
-            while j < n and (text[j].isalnum() or text[j] in "_$"):
+            while j < n and (_letter(text[j]) or _digit(text[j]) or text[j] == "$"):
                 j += 1
-            add("word", text[i:j].upper())
+            add("word", "".join(ch.upper() if "a" <= ch <= "z" else ch for ch in text[i:j]))
             i = j
             continue
         if c == "%" and text.startswith("%s", i):
             add("ph", "%s")
             i += 2
             continue
-        if c == "$" and i + 1 < n and text[i + 1].isdigit():
+        if c == "$" and i + 1 < n and _digit(text[i + 1]):
             j = i + 1
-            while j < n and text[j].isdigit():
+            while j < n and _digit(text[j]):
                 j += 1
             add("ph", text[i:j])
             i = j
